@@ -62,7 +62,7 @@ var mapWriteKinds = []uint8{oStore, oLoadOrStore, oLoadAndStore, oLoadOrCompute,
 
 var idCounter int64
 
-func nextVal(k int) val { return val{K: int32(k), ID: atomic.AddInt64(&idCounter, 1)} }
+func nextVal(k int) val { return mkVal(k, atomic.AddInt64(&idCounter, 1)) }
 
 func genMapProg(r rng, n int, keys []int, pClear, pLoad float64) []wop {
 	p := make([]wop, 0, n)
@@ -117,6 +117,11 @@ func execMapOp(m mapAPI, w *wop, client int) *hev {
 		m.Delete(w.k)
 	case oClear:
 		m.Clear()
+	case oWaitSize:
+		// not an API call under test: hold back until the table is about to cross a grow threshold
+		for i := 0; i < 1500 && m.Size() < w.k; i++ {
+			runtime.Gosched()
+		}
 	}
 	h.Ret = tick()
 	vshim.Progress()
@@ -126,6 +131,12 @@ func execMapOp(m mapAPI, w *wop, client int) *hev {
 // provenance: a value handed out under key k must have been written under k
 func provenance(h *hev) string {
 	chk := func(v any, what string) string {
+		if x, ok := v.(val); ok && !x.ok() {
+			return fmt.Sprintf("%s of %s on k%d is not a value anybody stored (mixed from two writes): %+v", what, opNames[h.Kind], h.K, x)
+		}
+		if _, ok := v.(val2); ok {
+			return fmt.Sprintf("%s of %s on k%d has a dynamic type/data combination nobody stored", what, opNames[h.Kind], h.K)
+		}
 		if x, ok := v.(val); ok && x != (val{}) && int(x.K) != h.K {
 			return fmt.Sprintf("%s of %s on k%d is a value written under k%d", what, opNames[h.Kind], h.K, x.K)
 		}
@@ -265,7 +276,7 @@ func genMapRound(r rng, prop string, flavors []string, hashers []string) (*mapRo
 	}
 	rd.procs = pick(r, []int{1, 2, 4, 16, 16})
 	rd.polling = r.chance(0.5)
-	fam := r.weighted([]int{28, 14, 14, 22, 22})
+	fam := r.weighted([]int{28, 13, 13, 20, 16, 10})
 	pClear := 0.0
 	if r.chance(0.4) {
 		pClear = 0.04
@@ -308,6 +319,35 @@ func genMapRound(r rng, prop string, flavors []string, hashers []string) (*mapRo
 		rd.waves = r.between(1, 3)
 		for w := 0; w < rd.workers; w++ {
 			rd.progs = append(rd.progs, genMapProg(r, r.between(20, 60), rd.hot, pClear, 0.4))
+		}
+	case 5: // probers: Store(k); Clear(); Load(k) in program order while others resize the table
+		rd.family = "clear-probe"
+		rd.workers = r.between(2, 5)
+		rd.hot = pickMates(r, m, 64, rd.workers)
+		rd.fillers = r.between(2, 3)
+		rd.fillLo, rd.fillHi = 100, 100+r.between(90, 500)
+		rd.waves = r.between(2, 4)
+		for k := 1000; k < 1000+r.between(50, 75); k++ {
+			rd.prefill = append(rd.prefill, k)
+		}
+		// pause right after a CAS was won (the resizing flag, a bucket spin lock): the
+		// resize in flight stays in flight long enough for the probers' Clear to meet it
+		if r.chance(0.7) {
+			rd.focus = vshim.KAfterCAS
+			if rd.level < 2 {
+				rd.level = 2
+			}
+		}
+		for w := 0; w < rd.workers; w++ {
+			k := rd.hot[w%len(rd.hot)]
+			var p []wop
+			for j := 0; j < r.between(3, 8); j++ {
+				// grow thresholds: 72*2^i entries (Map), 120*2^i (MapOf)
+				th := pick(r, []int{72, 144, 288, 120, 240, 480}) + r.between(-3, 2)
+				p = append(p, wop{kind: oWaitSize, k: th},
+					wop{kind: oStore, k: k, v: nextVal(k), rec: true}, wop{kind: oClear, rec: true}, wop{kind: oLoad, k: k, rec: true})
+			}
+			rd.progs = append(rd.progs, p)
 		}
 	default: // Clear racing inserts that trigger a grow
 		rd.family = "clear-vs-grow"
